@@ -150,7 +150,34 @@ def judge_reduce(c, op, cfg, raw):
             for j in range(n):
                 if abs(out[i][j] - w[j]) > 64 * U * big:
                     return "reduce(elevate(w)) != w at node %d of row %d: %r vs %r" % (j, i, float(out[i][j]), float(w[j]))
+    # every net: the result is the least-squares inverse of elevation, i.e. the exact rational pseudo-inverse (E^T E)^-1 E^T v
+    Mt = oq.elevation_matrix(n - 1)             # n x (n+1): row i = elevated image of the i-th unit net of degree n-1 (= E^T)
+    cols_e = len(Mt)                            # n unknowns
+    rows_e = len(Mt[0])                         # n+1 equations
+    E = [[Mt[j][k] for j in range(cols_e)] for k in range(rows_e)]
+    ete = [[sum(E[k][i] * E[k][j] for k in range(rows_e)) for j in range(cols_e)] for i in range(cols_e)]
+    for i, row in enumerate(c["rows"]):
+        rhs = [sum(E[k][j] * row[k] for k in range(rows_e)) for j in range(cols_e)]
+        w = solve_exact(ete, rhs)
+        big = max([abs(x) for x in row] + [Fraction(1, 2 ** 60)])
+        for j in range(cols_e):
+            if abs(out[i][j] - w[j]) > 256 * U * big:
+                return "node %d of row %d is %r, the least-squares inverse of elevation gives %r" % (j, i, float(out[i][j]), float(w[j]))
     return None
+
+
+def solve_exact(a, b):
+    """Gaussian elimination over Fractions"""
+    n = len(a)
+    m = [list(r) + [x] for r, x in zip(a, b)]
+    for c_ in range(n):
+        p_ = next(r for r in range(c_, n) if m[r][c_] != 0)
+        m[c_], m[p_] = m[p_], m[c_]
+        for r in range(n):
+            if r != c_ and m[r][c_] != 0:
+                f_ = m[r][c_] / m[c_][c_]
+                m[r] = [x - f_ * y for x, y in zip(m[r], m[c_])]
+    return [m[i][n] / m[i][i] for i in range(n)]
 
 
 def judge_full(c, op, cfg, raw):
